@@ -48,6 +48,16 @@ CHECKS = {
              "renderings (rates and fex polynomials).",
         design="4/C13", technique="Lean 4 proof (list induction) + differential check of modified vs unmodified renderings",
         note="Path through the configuration file is exercised by C20's check."),
+    "C19": dict(
+        text="Theorems solve_success_exact (for every script of integrator outcomes - successes, flags -1..-4 with arbitrary "
+             "partial progress, reset flag -6, failing re-initialisation - at every call position of the five levels, in any "
+             "additive commutative group of times: SUCCESS implies the state advanced by exactly dt), fail_logs_initial_state, "
+             "unrecoverable_fails, reinit_failure_fails, five_levels_then_fail, odeint_budget. Tie: the rendered naunet.cpp "
+             "(dense, sparse, odeint) is compiled against a scripted mock integrator and must agree with the model's result "
+             "and final state on every script; the oracle checks the property statement directly on the compiled code.",
+        design="4/C19", technique="Lean 4 proof (ladder invariant by induction over levels and sub-steps) + compiled-code differential check",
+        note="Exact arithmetic: pow(10, log10(dt)) = dt is the hypothesis LastTargetExact (binary64 differs by ~1e-16 relative; "
+             "comparison tolerance 1e-9). Real SUNDIALS/Boost replaced by /verif/shim; cuSPARSE Solve has no error handling and is not covered."),
 }
 
 NOT_YET = {}
